@@ -41,6 +41,7 @@ pub struct OptSet {
 	pub memtable_stall: usize,
 	pub l0_stall: usize,
 	pub vlog_checksum: bool,
+	pub absolute_consistency: bool,
 }
 
 impl OptSet {
@@ -63,6 +64,7 @@ impl OptSet {
 			memtable_stall: 1000,
 			l0_stall: 1000,
 			vlog_checksum: false,
+			absolute_consistency: false,
 		}
 	}
 	pub fn levels(mut self, n: u8) -> Self {
@@ -119,6 +121,7 @@ impl OptSet {
 			"level0_max_files": self.level0_max_files, "max_bytes_for_level": self.max_bytes_for_level,
 			"memtable_stall": self.memtable_stall, "l0_stall": self.l0_stall,
 			"vlog_checksum": self.vlog_checksum,
+			"absolute_consistency": self.absolute_consistency,
 		})
 	}
 
@@ -144,6 +147,7 @@ impl OptSet {
 			memtable_stall: j["memtable_stall"].as_u64().unwrap() as usize,
 			l0_stall: j["l0_stall"].as_u64().unwrap() as usize,
 			vlog_checksum: j["vlog_checksum"].as_bool().unwrap_or(false),
+			absolute_consistency: j["absolute_consistency"].as_bool().unwrap_or(false),
 		}
 	}
 
@@ -183,6 +187,9 @@ impl OptSet {
 		}
 		if self.vlog_checksum {
 			o = o.with_vlog_checksum_verification(VLogChecksumLevel::Full);
+		}
+		if self.absolute_consistency {
+			o = o.with_wal_recovery_mode(surrealkv::WalRecoveryMode::AbsoluteConsistency);
 		}
 		o.verif_with_clock(Arc::clone(clock))
 	}
